@@ -360,8 +360,10 @@ def skeleton(root: ET.Element) -> str:
 
 
 def _transparent(e: ET.Element) -> bool:
-    """docutils visit_literal wraps the words of a literal that contain punctuation in <span class="pre"> to keep
-    them on one line: presentation chosen from the characters, not markup made from them."""
+    """Presentation chosen from the characters of a text, not markup made from them: docutils visit_literal wraps
+    the words of a literal that contain punctuation in <span class="pre"> to keep them on one line."""
+    if e.tag == "wbr" and not e.attrib and len(e) == 0:
+        return True     # break opportunities placed by epydoc2stan.insert_break_points from the case of the letters
     return e.tag == "span" and e.get("class") == "pre" and len(e.attrib) == 1
 
 
